@@ -15,6 +15,7 @@ mkdir -p /tmp/seedtest-out
 while read c p; do
   out=$(/verif/tools/seedtest.sh -R:$c $p 2>&1)
   if echo "$out" | grep -q "revert failed"; then echo "$c $p REVERT-CONFLICT"
+  elif echo "$out" | grep -q "type errors in module under analysis"; then echo "$c $p REVERT-DOES-NOT-BUILD (a later fix builds on it)"
   elif echo "$out" | grep -q "rc=1"; then echo "$c $p DETECTED $(echo "$out" | grep -m1 violation | cut -c1-120)"
   else echo "$c $p MISSED"; fi
 done < /tmp/revert_pairs.txt
